@@ -6,6 +6,7 @@ import (
 	"fmt"
 	"go/ast"
 	"go/token"
+	"go/types"
 	"os"
 	"path/filepath"
 	"reflect"
@@ -217,6 +218,16 @@ func c14r1(c *Ctx) {
 		} else {
 			c.Anchor(rule, msg+".Unmarshal")
 		}
+		// Size: the length that is added and the length whose varint size is added are one expression
+		if fd := funcs[msg+".Size"]; fd != nil {
+			for _, bad := range sizeLengthMismatches(fd) {
+				c.FailX(Oblig{Rule: rule, Func: msg, Construct: msg + ": Size length expressions", Pos: c.P.Pos(bad.pos), Kind: "violation",
+					Detail: "Size adds " + bad.a + " bytes of payload but the varint size of " + bad.b + ": for some lengths the reported size differs from the encoded length (Marshal panics or emits a shifted buffer)"})
+			}
+			if len(sizeLengthMismatches(fd)) == 0 {
+				c.OK(rule, msg, msg+": Size length expressions", c.P.Pos(fd.Pos()), "every contribution is 1 + L + sov(L) with one fresh L")
+			}
+		}
 		// Size: one `n += 1 + …` per field
 		if fd := funcs[msg+".Size"]; fd != nil {
 			got := sizeFields(fd)
@@ -355,6 +366,92 @@ func unmarshalTable(fd *ast.FuncDecl) ([]wireField, string) {
 		return false
 	})
 	return out, why
+}
+
+type sizeMismatch struct {
+	pos  token.Pos
+	a, b string
+}
+
+// sizeLengthMismatches: statements `n += 1 + X + sov…(uint64(Y))` where X and Y differ, or where both are a variable that was not assigned by the
+// statement immediately before (a stale length).
+func sizeLengthMismatches(fd *ast.FuncDecl) []sizeMismatch {
+	var out []sizeMismatch
+	fresh := map[string]bool{}
+	var visitBlock func(list []ast.Stmt)
+	check := func(list []ast.Stmt, i int, as *ast.AssignStmt) {
+		if as.Tok == token.ASSIGN && len(as.Lhs) == 1 {
+			fresh[types.ExprString(as.Lhs[0])] = true
+			return
+		}
+		if as.Tok != token.ADD_ASSIGN || len(as.Rhs) != 1 {
+			return
+		}
+		// flatten the sum
+		var terms []ast.Expr
+		var flat func(e ast.Expr)
+		flat = func(e ast.Expr) {
+			if be, ok := e.(*ast.BinaryExpr); ok && be.Op == token.ADD {
+				flat(be.X)
+				flat(be.Y)
+				return
+			}
+			terms = append(terms, e)
+		}
+		flat(as.Rhs[0])
+		var lenExpr, sovArg string
+		for _, t := range terms {
+			if call, ok := t.(*ast.CallExpr); ok {
+				if id, ok := call.Fun.(*ast.Ident); ok && strings.HasPrefix(id.Name, "sov") && len(call.Args) == 1 {
+					arg := call.Args[0]
+					if conv, ok := arg.(*ast.CallExpr); ok && len(conv.Args) == 1 {
+						arg = conv.Args[0]
+					}
+					sovArg = types.ExprString(arg)
+					continue
+				}
+			}
+			if bl, ok := t.(*ast.BasicLit); ok && bl.Kind == token.INT {
+				continue
+			}
+			lenExpr = types.ExprString(t)
+		}
+		if sovArg == "" || lenExpr == "" {
+			return
+		}
+		if sovArg != lenExpr {
+			out = append(out, sizeMismatch{as.Pos(), lenExpr, sovArg})
+			return
+		}
+		if !strings.Contains(lenExpr, "(") {
+			// a plain variable: it must have been assigned since the last contribution that consumed it (else it is a stale length)
+			if !fresh[lenExpr] {
+				out = append(out, sizeMismatch{as.Pos(), lenExpr, sovArg + " (stale: not reassigned since the previous field)"})
+			}
+			fresh[lenExpr] = false
+		}
+	}
+	visitBlock = func(list []ast.Stmt) {
+		for i, st := range list {
+			switch x := st.(type) {
+			case *ast.AssignStmt:
+				check(list, i, x)
+			case *ast.IfStmt:
+				visitBlock(x.Body.List)
+				if eb, ok := x.Else.(*ast.BlockStmt); ok {
+					visitBlock(eb.List)
+				}
+			case *ast.RangeStmt:
+				visitBlock(x.Body.List)
+			case *ast.ForStmt:
+				visitBlock(x.Body.List)
+			case *ast.BlockStmt:
+				visitBlock(x.List)
+			}
+		}
+	}
+	visitBlock(fd.Body.List)
+	return out
 }
 
 func sizeFields(fd *ast.FuncDecl) []string {
@@ -559,7 +656,116 @@ func c14r2(c *Ctx) {
 	}
 }
 
+// shiftAccumulateRule: a loop that folds the bytes of a slice into a fixed-width unsigned accumulator (acc = acc<<k | x, acc*2^k + x) loses the
+// leading bytes unless len(slice)*k <= width holds at the loop; the bound must be entailed by the guards.
+func shiftAccumulateRule(c *Ctx, rule string, scope func(*Prog, *ssa.Function) bool) {
+	for _, fn := range c.P.Funcs {
+		if !scope(c.P, fn) {
+			continue
+		}
+		e := c.P.Env(fn)
+		for _, b := range fn.Blocks {
+			for _, in := range b.Instrs {
+				shl, ok := in.(*ssa.BinOp)
+				if !ok || shl.Op != token.SHL {
+					continue
+				}
+				acc, ok := shl.X.(*ssa.Phi)
+				if !ok || !isUnsignedT(acc.Type()) {
+					continue
+				}
+				k, ok := constInt(shl.Y)
+				if !ok || k <= 0 {
+					continue
+				}
+				// the accumulator is fed back: some edge of the φ depends on the shift
+				back := false
+				for _, ed := range acc.Edges {
+					if usesValue(ed, shl, 0) {
+						back = true
+					}
+				}
+				if !back {
+					continue
+				}
+				// the slice whose elements are folded in: an IndexAddr in the loop whose loaded value reaches the fed-back expression
+				var src ssa.Value
+				for _, bb := range fn.Blocks {
+					for _, i2 := range bb.Instrs {
+						if ia, ok := i2.(*ssa.IndexAddr); ok {
+							for _, ed := range acc.Edges {
+								if usesValueThroughLoad(ed, ia, 0) {
+									src = ia.X
+								}
+							}
+						}
+					}
+				}
+				if src == nil {
+					continue
+				}
+				width := int64(64)
+				if bt, ok := acc.Type().Underlying().(*types.Basic); ok {
+					switch bt.Kind() {
+					case types.Uint32:
+						width = 32
+					case types.Uint16:
+						width = 16
+					case types.Uint8:
+						width = 8
+					}
+				}
+				maxLen := width / k
+				goal := leConst(maxLen).minus(e.lenOf(src))
+				construct := fmt.Sprintf("fold of %s into a %d-bit accumulator by << %d", e.Term(src), width, k)
+				r := c.P.ProveLin(fn, shl, func(e *Env) []LE { return []LE{leConst(maxLen).minus(e.lenOf(src))} }, nil)
+				_ = goal
+				if r.OK {
+					c.OK(rule, FuncName(fn), construct, c.P.InstrPos(shl), "len <= "+fmt.Sprint(maxLen)+": "+r.By)
+				} else {
+					c.FailX(Oblig{Rule: rule, Func: FuncName(fn), Construct: construct, Pos: c.P.InstrPos(shl), Kind: "violation",
+						Detail:   fmt.Sprintf("up to more than %d elements are shifted into a %d-bit word: the leading bytes are lost (the decoded value differs from the encoded one)", maxLen, width),
+						Facts:    r.Facts,
+						Expected: fmt.Sprintf("a guard entailing len(%s) <= %d on every path to the loop", e.Term(src), maxLen)})
+				}
+			}
+		}
+	}
+}
+
+func usesValue(v ssa.Value, target ssa.Value, d int) bool {
+	if v == target {
+		return true
+	}
+	if d > 6 {
+		return false
+	}
+	switch x := v.(type) {
+	case *ssa.BinOp:
+		return usesValue(x.X, target, d+1) || usesValue(x.Y, target, d+1)
+	case *ssa.Convert:
+		return usesValue(x.X, target, d+1)
+	}
+	return false
+}
+
+func usesValueThroughLoad(v ssa.Value, ia *ssa.IndexAddr, d int) bool {
+	if d > 6 {
+		return false
+	}
+	switch x := v.(type) {
+	case *ssa.UnOp:
+		return x.X == ssa.Value(ia)
+	case *ssa.BinOp:
+		return usesValueThroughLoad(x.X, ia, d+1) || usesValueThroughLoad(x.Y, ia, d+1)
+	case *ssa.Convert:
+		return usesValueThroughLoad(x.X, ia, d+1)
+	}
+	return false
+}
+
 func c14r3(c *Ctx) {
+	shiftAccumulateRule(c, "C14-R3", func(p *Prog, fn *ssa.Function) bool { return p.InPkgs(fn, "data") && !p.Generated(fn) })
 	indexRule(c, "C14-R3", "index / slice sites of the hand-written amount caster are in range", func(p *Prog, fn *ssa.Function) bool {
 		return p.InPkgs(fn, "data") && !p.Generated(fn)
 	}, 4)
